@@ -46,6 +46,9 @@ pub const N_PROBES: usize = 40;
 pub const OWNER_ONLY_STORE: u32 = 1000;
 /// Event code base: a node's `in_use` word was just written; code = base + new value.
 pub const IN_USE_WRITE_BASE: u32 = 1100;
+/// Event codes: a thread entered (took a writer reservation on) / left a node.
+pub const WRITER_ENTERED: u32 = 1400;
+pub const WRITER_LEFT: u32 = 1401;
 pub const N_OPKINDS: usize = 32;
 
 #[derive(Clone, Debug)]
@@ -2330,6 +2333,11 @@ pub(crate) fn atomic_rmw(
     mirror(new);
     rt.log_event(OpK::Rmw, li, ord, rf, mo, new, old, 0, site);
     report_in_use_write(rt, li, meta, new);
+    if rt.locs[li].class == LocClass::ActiveWriters && new != old {
+        if let Some(h) = rt.event_hook {
+            h(if new > old && new.wrapping_sub(old) < (1 << 30) { WRITER_ENTERED } else { WRITER_LEFT }, meta as *const _ as usize);
+        }
+    }
     old
 }
 
